@@ -47,6 +47,13 @@ def cases(tier, rng, run):
             out.append(Case(c2.ctx_line(), "ctx", {"group": (gi, "ctx"), "ctx": c2}))
             if gi % 3 == 0:
                 out.append(Case(c2.call_line("func", ["pos", "kw", "kwonly", "posonly"][gi % 4], omit=(gi // 4) % 3), "call", {"group": (gi, "call"), "ctx": c2}))
+    # one NAME registered twice in a context (two tuple positions can never collide, but a context fed directly — or a model field
+    # validated again — can): the second registration is refused whatever the libraries of the two arrays are
+    for dt in ("float32", "int64", "bool", "uint8", "float16"):
+        for shape2 in ("2.3", "3.2"):
+            gi += 1
+            for l1, l2 in itertools.product([0, 1, 2], repeat=2):
+                out.append(Case(f"CTX\t\tA|x|TensorTypeBase,0,a b|T,{l1}:{dt},2.3\tA|x|TensorTypeBase,0,a b|T,{l2}:{dt},{shape2}\tV", "ctx", {"group": (gi, "dupname")}))
     # the exhaustive re-binding and named-group families (conflicts of every kind, reported through every error path) under every
     # assignment of libraries to their arrays
     for c in gen_ctx.rebinding_contexts() + gen_ctx.group_contexts():
@@ -190,7 +197,9 @@ def custom(run, tier):
     import sys
 
     import common
+    from checks import c03
 
+    c03.inplace_recheck(run)   # an array changed in place between two checks is judged like a fresh array of its new shape / dtype, in numpy and in torch alike
     n = 0
     for order in ("012", "120", "201"):
         env = dict(os.environ, JAX_PLATFORMS="cpu")
